@@ -2,6 +2,8 @@ package main
 
 import (
 	"fmt"
+
+	"github.com/notaryproject/notation-go/zzverif/lib/hx"
 )
 
 type viol struct{ Key, What string }
@@ -80,6 +82,9 @@ func judge(c Case, res result) (v verdict) {
 	// ---- bounded-delay monitor ----
 	if !res.Returned {
 		switch {
+		case limited && hx.Overloaded():
+			// elapsed time says nothing on a machine oversubscribed far beyond what hx.Budget compensates for
+			v.Class = prefix + " -> not returned within the bound, machine overloaded (recorded, not judged)"
 		case limited:
 			kind, _ := ctxSpec(c.Ctx)
 			v.Judged = true
